@@ -569,7 +569,11 @@ def reject_if(ctx, rid, f, pred, pol, what, construct, success=None, min_edges=1
         return False
     ok = True
     for bid, i, s, ef in edges:
-        r = f.find_path(None, succ_pred, from_succ=s, init_facts=[(ef[0], ef[1])],
+        # what is known when this edge is taken: everything the edge establishes plus the guard facts that hold at
+        # the end of its block on every path
+        known = {(k, p) for k, p, a in f.edge_facts(bid, i)}
+        known |= {(k, p) for k, (p, a) in f.facts_at({'_b': bid, '_i': len(f.blocks[bid]['ev'])}).items() if (k, not p) not in known}
+        r = f.find_path(None, succ_pred, from_succ=s, init_facts=frozenset(known),
                         is_blocker=lambda x: (x['k'] == 'ret' and not succ_pred(x)) or
                         (until is not None and until(x)))
         line = f.blocks[bid].get('term', {}).get('line', f.line)
@@ -816,3 +820,34 @@ def absent_from(field):
         return isinstance(a, dict) and a.get('k') == 'call' and lastname(a.get('name')) in ('count', 'contains') and \
             mentions_field(a.get('recv'), field)
     return [(eq_end, True), (count_zero, True), (count_truth, False)]
+
+
+def answer_sites(f):
+    """Where a function's result is decided: [(event, value descriptor)].  `return e` answers at the return; a
+    function that returns a result variable on its way out (`T r; if (..) r = a; else r = b; return r;`) answers at
+    each store into that variable (assignments, `operator=` / assign calls, a declaration with an initialiser)."""
+    out = []
+    for e in f.events('ret'):
+        v = e.get('e')
+        sv = unwrap_conv(v) if v is not None else None
+        if isinstance(sv, dict) and sv.get('k') == 'var' and sv.get('vk') == 'local':
+            n = sv['n']
+            found = False
+            for x in f.events():
+                if x.get('k') == 'asg' and isinstance(strip(x.get('l')), dict) and strip(x['l']).get('k') == 'var' and strip(x['l'])['n'] == n:
+                    out.append((x, x.get('r')))
+                    found = True
+                elif x.get('k') == 'decl' and x.get('n') == n and x.get('init') is not None:
+                    i0 = unwrap_conv(x['init'])
+                    if not (isinstance(i0, dict) and i0.get('k') in ('ctor', 'construct') and not i0.get('args')):
+                        out.append((x, x['init']))
+                        found = True
+                elif x.get('k') == 'call' and (x.get('op') == '=' or lastname(x.get('name') or '') in ('operator=', 'assign')) and \
+                        isinstance(strip(x.get('recv')), dict) and strip(x['recv']).get('k') == 'var' and strip(x['recv'])['n'] == n:
+                    out.append((x, (x.get('args') or [None])[0]))
+                    found = True
+            if not found:
+                out.append((e, v))
+        else:
+            out.append((e, v))
+    return out
